@@ -37,6 +37,11 @@ def expected_numeric(E, k, x, y, w, mp, i):
     n = len(wx)
     if n < need_count(k, w, mp):
         return [float("nan")]
+    if k.guard_on is not None:
+        g = k.guard_on(wx, wy)
+        gv = Fraction(g.f.num.val) / Fraction(g.f.den.val)
+        if gv <= Fraction(1, 10 ** 9):
+            return []          # regressor (numerically) constant: no claim
     ref = k.oracle(wx, wy, sqrt=ctx.f_sqrt, window=w) if k.two else k.oracle(wx, sqrt=ctx.f_sqrt, window=w)
     if isinstance(ref, str):
         return []
@@ -160,6 +165,9 @@ def validate_translator(v, E, names, vectors=None, nrand=20):
                 continue
             outs = r.outputs
             for i in range(len(x)):
+                if outs[i] is None:
+                    v.inconcl(f"translator validation: encoding of {name} panics on x={x} y={y} w={w} mp={mp} but the native code returns")
+                    return checked
                 o = outs[i].items[k.pick] if k.pick is not None else outs[i]
                 try:
                     enc = replay.vf_to_float(o)
